@@ -29,7 +29,7 @@ class Suite:
         return os.path.join(self.root, "tp_folder")
 
 
-def generate(rng, n_setups=None, n_leaves=None, same_names=True, subset_producers=False):
+def generate(rng, n_setups=None, n_leaves=None, same_names=True, subset_producers=False, removable=False):
     """subset_producers: a multi-producer group is only depended on by tests that use all of the group's vms"""
     """returns (groups text to append, truth) - truth: dict test -> {vm: (kind, parent test, state)}; leaves: name -> vms"""
     n_setups = rng.randint(2, 6) if n_setups is None else n_setups
@@ -48,6 +48,10 @@ def generate(rng, n_setups=None, n_leaves=None, same_names=True, subset_producer
                         "                        get_state_images = %s" % parent,
                         "                        set_state_%s = %s" % (kind, name),
                         "                        type = shared_generated_setup"]
+        if removable and rng.random() < 0.35:
+            # the state is removed after use (at any depth of the setup DAG)
+            lines_setup += ["                        unset_mode_%s = fi" % kind]
+            setups[name]["removable"] = True
         (vm_setups if kind == "vms" else image_setups).append(name)
     leaves = {}
     producers = {}        # leaf group with two state-setting variants: name -> vm
@@ -78,8 +82,9 @@ def generate(rng, n_setups=None, n_leaves=None, same_names=True, subset_producer
             producers[name] = (vm, vms)
             # a state named after the test producing it (as the shipped setup tests do) or not
             sa, sb = (name + ".va", name + ".vb") if same_names else ("s%da" % k, "s%db" % k)
+            rm = ["                unset_mode_images_%s = fi" % vm] if removable and rng.random() < 0.5 else []
             lines += ["        variants:",
-                      "            - va:", "                set_state_images_%s = %s" % (vm, sa),
+                      "            - va:", "                set_state_images_%s = %s" % (vm, sa)] + rm + [
                       "            - vb:", "                set_state_images_%s = %s" % (vm, sb)]
             leaves[name + ".va"] = (vms, decl, {vm: sa})
             leaves[name + ".vb"] = (vms, decl, {vm: sb})
